@@ -335,6 +335,8 @@ def judge(case, obs, verdicts):
     if obs.use is not None:
         return "ok", None, None
     v = verdicts.get(obs.id)
+    if v is None:
+        return "harness", "classifier:no-verdict", "the extracted classifier returned no verdict for this observation"
     if v == "ok":
         return "ok", None, None
     if v == "diagnosed":
@@ -832,8 +834,9 @@ def show_input(data, limit=600):
 # =============================================================================================
 PARTIAL_TEXT = (
     "PARTIAL BY NATURE. Proved in Coq (Properties_C05.v): (1) the length arithmetic of print_msg as "
-    "regenerated from back/utils.c — a per-prefix safety criterion, a computed verdict for the current "
-    "tree and, on the pinned tree, msg_write_within_buffer_refuted (the buffer IS overrun); (2) "
+    "regenerated from back/utils.c — a per-prefix safety criterion, a computed verdict for whatever "
+    "size expressions the tree carries, msg_write_within_buffer for all prefix/body lengths on the current "
+    "tree (the earlier arithmetic, vsnprintf given MAX_MSG_SIZE, is kept as msg_unbounded_body_limit_refuted); (2) "
     "use_depth_bounded for the include stack of scanner.l as a state machine over `use`/EOF events "
     "with the guard and array size regenerated from the source; (3) the outcome classifier is total, "
     "exclusive and equivalent to its declarative reading. NOT proved, only observed on the inputs "
@@ -956,7 +959,11 @@ def build_search_cases(ctx, rng, workdir, scale):
 
 
 def msgbuf_correspondence(ctx, drv, workdir):
-    """(a) the extracted print_msg arithmetic against ASan's verdict on the real print_msg."""
+    """(a) the extracted print_msg arithmetic against ASan's verdict on the real print_msg.
+    Every case makes the compiler print one diagnostic quoting a long token; the observed stderr
+    line gives the prefix length p and the body length b exactly; the model predicts whether
+    print_msg's copy into msg_buf stays inside the buffer; ASan's interceptor of vsnprintf
+    decides what really happened."""
     cases = []
     lens = list(range(960, 1012)) + [10, 500, 900, 1023, 1024, 1100, 2000, 5000]
     for L in lens:
@@ -965,6 +972,14 @@ def msgbuf_correspondence(ctx, drv, workdir):
         cases.append(Case("mb.f.%d" % L, "msgbuf", b"func main() -> int { " + b"b" * L + b" }", "file"))
     for L in list(range(975, 1006, 2)) + [10, 1100]:
         cases.append(Case("mb.l.%d" % L, "msgbuf", b"\n" * 12345 + b"func main() -> int { " + b"c" * L + b" }", "str"))
+    # prefixes around and beyond the buffer size: the file name of a diagnostic inside a module is the
+    # module name as written after `use` (unbounded), the file opened is its first 255 characters
+    root = os.path.join(workdir, "mbmods")
+    os.makedirs(root, exist_ok=True)
+    with open(os.path.join(root, "m" * 255), "w") as f:
+        f.write("module x { func f() -> int { zz } }\n")
+    for L in [300, 900, 1000, 1005, 1010, 1012, 1013, 1014, 1020, 1023, 1024, 1025, 1100, 3000]:
+        cases.append(Case("mb.p.%d" % L, "msgbuf", b"use " + b"m" * L + b"\nfunc main() -> int { 0 }\n", "str", root))
     obs = run_cases(drv, cases, workdir, tag="mb")
     q, info = [], {}
     for c in cases:
@@ -983,7 +998,9 @@ def msgbuf_correspondence(ctx, drv, workdir):
     out = run_ocaml("msg", ("\n".join(q) + "\n").encode())
     lines = out.splitlines()
     verdict = lines[0] if lines else "VERDICT ?"
-    n = agree = n_over = n_within = 0
+    m = re.search(r"bufsize=(\d+)", verdict)
+    bufsize = int(m.group(1)) if m else 1024
+    n = agree = n_over = n_within = n_trunc = n_longprefix = 0
     first_bad = None
     boundary = {}
     for l in lines[1:]:
@@ -997,30 +1014,25 @@ def msgbuf_correspondence(ctx, drv, workdir):
         model_over = a[1] == "overflow"
         n_over += over
         n_within += (not over)
+        n_trunc += (p + b >= bufsize)
+        n_longprefix += (p >= bufsize)
         if model_over == over:
             agree += 1
         elif first_bad is None:
             first_bad = {"case": c.id, "prefix_len": p, "body_len": b, "model": a[1], "asan_overflow": over}
         if over:
             boundary[p] = min(boundary.get(p, 1 << 30), b)
-    ctx.count(evaluations=n, nontrivial=min(n_over, n_within) * 2)
-    ctx.coverage["msgbuf_tie"] = {"cases": n, "agree": agree, "overflow_observed": n_over, "within_observed": n_within,
-                                  "model_verdict": verdict, "smallest_overflowing_body_by_prefix": {str(k): v for k, v in sorted(boundary.items())}}
+        if c.id == "mb.s.1100":
+            ctx.coverage.setdefault("msgbuf_tie", {})["replay_1100_character_identifier"] = {
+                "input": "func main() -> int { a{x1100} }", "prefix_len": p, "body_len": b, "model": a[1],
+                "asan_stack_buffer_overflow_in_print_msg": over}
+    ctx.count(evaluations=n, nontrivial=min(n_trunc, n - n_trunc) * 2)
+    ctx.coverage.setdefault("msgbuf_tie", {}).update({
+        "cases": n, "agree": agree, "overflow_observed": n_over, "within_observed": n_within,
+        "cases_where_the_diagnostic_does_not_fit_the_buffer": n_trunc, "cases_with_prefix_longer_than_buffer": n_longprefix,
+        "model_verdict": verdict, "smallest_overflowing_body_by_prefix": {str(k): v for k, v in sorted(boundary.items())}})
     if first_bad is not None:
         ctx.correspondence_broken("msgbuf-arithmetic-vs-asan", first_bad)
-    # replay of the Coq witness (18, 1100) of msg_write_within_buffer_refuted on the real compiler
-    probe = info.get("mb.s.10")
-    if probe:
-        fixed = probe[1] - 10
-        L = 1100 - fixed
-        c = Case("mb.witness", "msgbuf-witness", b"func main() -> int { " + b"a" * L + b" }", "str")
-        o = run_cases(drv, [c], workdir, tag="mw").get(c.id)
-        over = o is not None and b"stack-buffer-overflow" in o.diag and b"in print_msg" in o.diag
-        ctx.coverage["msgbuf_tie"]["witness_replay"] = {
-            "coq_witness": {"prefix_len": 18, "body_len": 1100}, "identifier_length": L,
-            "input": "func main() -> int { " + "a{x%d}" % L + " }", "asan_stack_buffer_overflow_in_print_msg": over}
-        if verdict.startswith("VERDICT unsafe") and not over:
-            ctx.correspondence_broken("msgbuf-witness-replay", {"identifier_length": L, "observed": (o.diag[:300].decode("latin-1") if o else None)})
     return verdict
 
 
@@ -1200,6 +1212,7 @@ def _run(ctx, drv, pdrv, workdir, t0):
     by_class, by_verdict = {}, {}
     findings = {}          # key -> list of (case, obs, what)
     asan_stack = []
+    harness = []
     seen_inputs = set()
     nontrivial = 0
     memexh = 0
@@ -1221,10 +1234,14 @@ def _run(ctx, drv, pdrv, workdir, t0):
             asan_stack.append((c, o, key, what))
         elif k in ("violation", "timeout"):
             findings.setdefault(key, []).append((c, o, what))
+        elif k == "harness":
+            harness.append(c.id)
         if k in ("ok", "diagnosed") and len(ctx.coverage["samples"]) < 5 and (len(c.data) < 200) and c.cls.startswith(("generated", "mutate", "raw")):
             ctx.sample({"class": c.cls, "input": show_input(c.data, 200), "ret": o.ret, "classifier": k,
                         "diagnostics_first_line": o.diag.split(b"\n")[0].decode("latin-1")[:120]})
     ctx.count(evaluations=len(cases), nontrivial=nontrivial)
+    if harness:
+        ctx.correspondence_broken("classifier-run", {"observations_without_verdict": len(harness), "first": harness[:5]})
     # stack overflows seen under ASan only count if the plain build (8 MiB stack) dies too
     confirmed, asan_only = [], 0
     if asan_stack:
